@@ -246,6 +246,8 @@ class Parser:
                         self._op_code.name.lower()))
             if not MatrixParser(self).matrix_spec():
                 return False
+            # A matrix is sent as colors, whatever commands its block held.
+            self._op_code = OpCode.COLOR
             operand = Operand.MATRIX_LIGHT
 
         self._add_instruction(OpCode.MOVEQ, operand, Register.OPERAND)
